@@ -151,7 +151,7 @@ def snap_class(c):
 
 def snap_class_fast(c):
     """Class attributes: binding identity for everything, contents for containers (the per-call version)."""
-    d = vars(c)
+    d = {k: v for k, v in vars(c).items() if k not in _SKIP_CLASS_KEYS}
     return (tuple(d), tuple(map(id, d.values())), [snap(v) for v in d.values() if type(v) in _CONTAINERS])
 
 
@@ -678,6 +678,13 @@ def check_world(ck, spec, mode, schedules, heap_exprs, heap_meta, solo_cases, so
             ck.violation(dict(clause="repeatable", detector=det.name), dict(what="two solo runs from the same configuration and stream differ", instance=j, **base))
             return False
         solos.append(s1[0][0])
+        # the same solo run with the callback toggled: verdicts and statistics must not depend on it
+        sp = solo_spec(spec, j)
+        sp["insts"][0] = dict(sp["insts"][0], cb=not sp["insts"][0].get("cb"))
+        s3 = run_world(ck, sp, [0] * lens[j], footprint=False)
+        if s3[2] is not None or [(c, st) for (c, st, _) in s3[0][0][:-1]] != [(c, st) for (c, st, _) in s1[0][0][:-1]]:
+            ck.violation(dict(clause="callbacks-transparent", detector=det.name), dict(what="the solo run with and without a history callback differ in outputs or status", instance=j, **base))
+            return False
         if spec["insts"][j]["cfg"] is not None:
             cfg = spec["cfgs"][spec["insts"][j]["cfg"]][1]
             key = (det.name, repr(cfg), repr(spec["insts"][j]["ops"]))
@@ -781,6 +788,53 @@ def aliasing(ck, w: World, spec, detail):
     return True
 
 
+def per_class_aliasing(ck, only=None, fixed=None):
+    """(3) for each of the 13 classes: config=None twice (fresh configuration each time, nothing in
+    common), and two instances from ONE configuration object before / after updates and a reset
+    (configuration shared by reference, nothing else; BOCD's model is a copy also after reset)."""
+    from frouros.callbacks import HistoryConceptDrift
+
+    rng = ck.rng
+    for det in ALL:
+        if only is not None and det.name != only:
+            continue
+        cls = cls_of(det.name)
+        ck.case(dict(kind="aliasing-map", detector=det.name), nontrivial=True, key="alias-" + det.name)
+        a, b = cls(), cls()
+        if a.config is b.config:
+            ck.violation(dict(clause="aliasing", what="default-config-shared", detector=det.name), dict(what="two detectors built with config=None hold the SAME configuration object (model NewD: a fresh one per call)", detector=det.name))
+            continue
+        sh = shared_objects(reach(a), reach(b))
+        if sh:
+            ck.violation(dict(clause="aliasing", what="instances-share-state", detector=det.name, via="config=None"), dict(what="two detectors built with config=None have mutable objects in common", shared=sh, detector=det.name))
+            continue
+        c = small_cfg(rng, det) if fixed is None or fixed[0] is None else fixed[0]
+        cfgobj = det.make(c).config
+        d1 = cls(config=cfgobj, callbacks=HistoryConceptDrift(name="a"))
+        d2 = cls(config=cfgobj, callbacks=[HistoryConceptDrift(name="b")])
+        ops = gen_ops(rng, det, c, 12, resets=False) if fixed is None or fixed[1] is None else fixed[1]
+        for stage in ("constructed", "updated", "reset", "updated-after-reset"):
+            if stage.startswith("updated"):
+                for o in ops:
+                    d1.update(value=o)
+                    d2.update(value=o)
+            elif stage == "reset":
+                d1.reset()
+            bad = None
+            if d1.config is not cfgobj or d2.config is not cfgobj:
+                bad = ("config-not-referenced", "an instance does not refer to the configuration object it was given")
+            else:
+                r1, r2, rc = reach(d1, stop=[cfgobj]), reach(d2, stop=[cfgobj]), reach(cfgobj)
+                if shared_objects(r1, r2):
+                    bad = ("instances-share-state", f"two instances from one configuration share mutable objects besides it: {shared_objects(r1, r2)}")
+                elif shared_objects(r1, rc) or shared_objects(r2, rc):
+                    bad = ("instance-aliases-config-internals", f"an instance refers directly to mutable objects inside its configuration: {shared_objects(r1, rc) + shared_objects(r2, rc)}")
+            if bad:
+                ck.violation(dict(clause="aliasing", what=bad[0], detector=det.name), dict(what=bad[1] + f" (stage: {stage})", detector=det.name, config=c, ops=ops, stage=stage))
+                break
+        ck.count("per_class_aliasing_maps")
+
+
 # --------------------------------------------------------------------------- KSWIN and the generator
 
 
@@ -856,6 +910,22 @@ def kswin_checks(ck, n):
             ck.count("kswin_config_None_reseeds_from_entropy(expected)")
 
 
+def observations(ck):
+    """Measured facts about sharing that are outside the property's wording (recorded, not judged)."""
+    from frouros.callbacks import HistoryConceptDrift
+    from frouros.detectors.concept_drift import DDM, STEPD
+
+    lst = [HistoryConceptDrift(name="h")]
+    d = DDM(callbacks=lst)
+    ck.notes.append(f"observation: a callbacks LIST passed to a constructor is stored by reference (detector.callbacks is the caller's list: {d.callbacks is lst}); two detectors given the same list/callback object would share it - outside the model (one callback object per detector)")
+    logs1 = d.update(value=1)
+    n1 = len(logs1["h"]["value"])
+    d.update(value=0)
+    ck.notes.append(f"observation: the logs returned by update() alias the live history lists (length of the dict returned at step 1, read after step 2: {len(logs1['h']['value'])}, was {n1}); C17's subject")
+    s = STEPD()
+    ck.notes.append(f"observation: STEPD keeps a frozen scipy.stats.norm whose random_state is NumPy's global generator object ({s._distribution.random_state is np.random.mtrand._rand}); it never draws from it (footprint check: generator unchanged by every STEPD call)")
+
+
 # --------------------------------------------------------------------------- class-level state across a whole run
 
 
@@ -877,8 +947,8 @@ def run(ck: Check):
         "large worlds: 10-60 calls per instance under round-robin, block and random interleavings; non-trivial = solo traces pairwise distinct and a flag or a reset occurs"
     )
     heap_exprs, heap_meta, solo_cases, solo_impl = [], [], [], []
-    n_small = 45 if not thorough else 300
-    n_large = 70 if not thorough else 500
+    n_small = 60 if not thorough else 400
+    n_large = 80 if not thorough else 600
     modes = ["shared", "separate", "different", "mixed"]
     for t in range(n_small):
         spec, mode = gen_world(rng, True, force=modes[t % 4] if t < 16 else None)
@@ -910,6 +980,9 @@ def run(ck: Check):
         check_world(ck, spec, ["kswin-shared", "kswin-two-configs", "kswin-with-nonconsumer"][kind], interleavings(lens), heap_exprs, heap_meta, solo_cases, solo_impl, {1, 7})
     ck.rule("KSWIN and the generator: construction seeds (state compared with RandomState(seed)), equal states give equal runs, solo run equals an oracle with a private RandomState, a second KSWINConfig re-seeds; interleaved consumers are compared with the one-generator oracle, not with their solo runs")
     kswin_checks(ck, 12 if not thorough else 80)
+    ck.rule("aliasing map per class: config=None twice, and two instances from one configuration object at four stages (constructed, updated, one reset, updated again), by identity and by array memory")
+    per_class_aliasing(ck)
+    observations(ck)
 
     # class attributes / module data of the whole package after everything above
     g1 = global_state()
@@ -997,6 +1070,14 @@ def replay(obj):
 
     print(json.dumps({k: v for k, v in obj.items() if k != "log"}, indent=1, default=str)[:4000])
     spec = obj.get("world")
+    sig = obj.get("signature", {})
+    if spec is None and sig.get("clause") == "aliasing" and sig.get("detector") in BY_NAME:
+        ck = Check("C16", "replay", 0)
+        per_class_aliasing(ck, only=sig["detector"], fixed=(obj.get("config"), obj.get("ops")))
+        print("replay:", "violation reproduced" if ck.violations else "no violation on this tree")
+        for s_, d in ck.violations[:1]:
+            print(json.dumps(dict(signature=s_, what=d.get("what")), indent=1, default=str))
+        return 1 if ck.violations else 0
     if spec is None:
         return main("quick", int(obj.get("seed", 0)))
     spec = dict(cfgs=[tuple(c) for c in spec["cfgs"]], insts=spec["insts"])
